@@ -62,7 +62,7 @@ pub fn solve(
 
 /// Highest value for edge weights to be used. See docs of `super::hungarian::EdgeWeight` for more thoughts on that
 /// topic
-const WEIGHT_OFFSET: EdgeWeight = 50000;
+pub(crate) const WEIGHT_OFFSET: EdgeWeight = 50000;
 /// Generate edge weight from course choice
 fn edge_weight(choice: &Choice) -> EdgeWeight {
     WEIGHT_OFFSET - choice.penalty as EdgeWeight
